@@ -44,13 +44,13 @@ Record obs_user := mkOU {
   ou_name : N; ou_ch : list N; ou_rl : list N; ou_vis : list N; ou_visleaf : list (N * rev) }.
 Record obs_db := mkODB { o_docs : list obs_doc; o_users : list obs_user }.
 
-Definition W (d : N) (g dg : N) (anc : list rev) (b : cbody) (del : bool) : wop cbody := mkW d (g, dg) anc b del.
+Definition W (d : N) (g dg : N) (anc : list rev) (b : cbody) (del : bool) : pop cbody := PWrite (mkW d (g, dg) anc b del).
+Definition L (u : N) : pop cbody := PLoad u.
 
 Inductive case :=
 | CResync (f1 f2 : fdesc) (regen : bool)
-          (ws1 ws2 : list (wop cbody))                 (* written under f1 / after the switch, before the resync *)
+          (h1 h2 : list (pop cbody))                   (* writes and user loads under f1 / after the switch, before the resync *)
           (users : list (N * list N * list N)) (roles : list (N * list N))    (* name, admin channels, admin roles *)
-          (warmed : bool)                              (* principals loaded once before the resync *)
           (before : obs_db) (changed1 : N) (after1 : obs_db) (changed2 : N) (after2 : obs_db) (fresh : obs_db).
 
 (* ---------------------------------------------------------------- comparison *)
@@ -116,22 +116,23 @@ Definition mk_princs (users : list (N * list N * list N)) (roles : list (N * lis
 
 Definition check (c : case) : bool :=
   match c with
-  | CResync f1 f2 regen ws1 ws2 users roles warmed before changed1 after1 changed2 after2 fresh =>
+  | CResync f1 f2 regen h1 h2 users roles before changed1 after1 changed2 after2 fresh =>
       let s1 := fam f1 in let s2 := fam f2 in
-      let mid0 := replay bempty s2 (replay bempty s1 [] ws1) ws2 in
-      let ps0 := mk_princs users roles in
-      let ps1 := if warmed then warm mid0 ps0 else ps0 in
+      (* principals are created with their computed sets (NewUser / NewRole on the empty database) *)
+      let ps0 := warm (@nil dN) (mk_princs users roles) in
+      let '(mid0, ps1) := hist bempty s2 (hist bempty s1 ([], ps0) h1) h2 in
       let mid := with_seqs (o_docs before) mid0 in
       let alloc := if regen then alloc_of (o_docs after1) mid else [] in
       let '(rs, n1, ps2) := run s2 switches_now regen_inval_fixed regen alloc mid ps1 in
-      let '(rs2, n2, ps3) := run s2 switches_now regen_inval_fixed false [] rs ps2 in
-      let fr := replay bempty s2 [] (ws1 ++ ws2) in
+      (* observing the users after the first run loads every one of them *)
+      let '(rs2, n2, ps3) := run s2 switches_now regen_inval_fixed false [] rs (warm rs ps2) in
+      let '(fr, psf) := hist bempty s2 ([], ps0) (map PWrite (writes_of h1 ++ writes_of h2)) in
       docs_match false mid0 (o_docs before) &&
       users_match mid ps1 (o_users before) &&
       (if regen then alloc_ok alloc mid else true) &&
       (n1 =? changed1) && docs_match true rs (o_docs after1) && users_match rs ps2 (o_users after1) &&
       (n2 =? changed2) && docs_match true rs2 (o_docs after2) && users_match rs2 ps3 (o_users after2) &&
-      docs_match false fr (o_docs fresh) && users_match fr ps0 (o_users fresh)
+      docs_match false fr (o_docs fresh) && users_match fr psf (o_users fresh)
   end.
 
 Definition mismatches (cs : list case) : list N := failing check cs.
@@ -139,19 +140,20 @@ Definition mismatches (cs : list case) : list N := failing check cs.
 (* debugging aid: the conjuncts of [check] one by one *)
 Definition parts (c : case) : list bool :=
   match c with
-  | CResync f1 f2 regen ws1 ws2 users roles warmed before changed1 after1 changed2 after2 fresh =>
+  | CResync f1 f2 regen h1 h2 users roles before changed1 after1 changed2 after2 fresh =>
       let s1 := fam f1 in let s2 := fam f2 in
-      let mid0 := replay bempty s2 (replay bempty s1 [] ws1) ws2 in
-      let ps0 := mk_princs users roles in
-      let ps1 := if warmed then warm mid0 ps0 else ps0 in
+      (* principals are created with their computed sets (NewUser / NewRole on the empty database) *)
+      let ps0 := warm (@nil dN) (mk_princs users roles) in
+      let '(mid0, ps1) := hist bempty s2 (hist bempty s1 ([], ps0) h1) h2 in
       let mid := with_seqs (o_docs before) mid0 in
       let alloc := if regen then alloc_of (o_docs after1) mid else [] in
       let '(rs, n1, ps2) := run s2 switches_now regen_inval_fixed regen alloc mid ps1 in
-      let '(rs2, n2, ps3) := run s2 switches_now regen_inval_fixed false [] rs ps2 in
-      let fr := replay bempty s2 [] (ws1 ++ ws2) in
+      (* observing the users after the first run loads every one of them *)
+      let '(rs2, n2, ps3) := run s2 switches_now regen_inval_fixed false [] rs (warm rs ps2) in
+      let '(fr, psf) := hist bempty s2 ([], ps0) (map PWrite (writes_of h1 ++ writes_of h2)) in
       [docs_match false mid0 (o_docs before); users_match mid ps1 (o_users before);
        (if regen then alloc_ok alloc mid else true);
        (n1 =? changed1); docs_match true rs (o_docs after1); users_match rs ps2 (o_users after1);
        (n2 =? changed2); docs_match true rs2 (o_docs after2); users_match rs2 ps3 (o_users after2);
-       docs_match false fr (o_docs fresh); users_match fr ps0 (o_users fresh)]
+       docs_match false fr (o_docs fresh); users_match fr psf (o_users fresh)]
   end.
